@@ -57,6 +57,12 @@ func SerialEncode(seq byte, subject string, points data.Points) ([]byte, error) 
 
 	ret.Write(pbSerialBytes)
 
+	if subject == "log" {
+		// log packets carry no CRC (docs/ref/serial.md), and
+		// SerialDecode does not strip one from them
+		return ret.Bytes(), nil
+	}
+
 	crc := crc16.ChecksumCCITT(ret.Bytes())
 
 	err = binary.Write(&ret, binary.LittleEndian, crc)
